@@ -263,10 +263,15 @@ impl PackageSpecifiers {
     nv: &PackageNv,
     dep: JsrDepPackageReq,
   ) {
+    // the package might not have been ensured yet when a loader answers a
+    // request with a module whose final specifier is in another package
     self
       .packages
-      .get_mut(nv)
-      .unwrap()
+      .entry(nv.clone())
+      .or_insert_with(|| PackageNvInfo {
+        exports: Default::default(),
+        found_dependencies: Default::default(),
+      })
       .found_dependencies
       .insert(dep);
   }
